@@ -228,6 +228,8 @@ func c30Meta(rng *rand.Rand, i int) string {
 	return strings.Join([]string{c06Pick(rng, []string{"0", "1"}), c06Pick(rng, c06Users), c06Pick(rng, []string{"0", "1"}), c06Pick(rng, c06Users), set, clr}, "|")
 }
 
+var c30Uniq int
+
 func c30Op(rng *rand.Rand, persistent bool) string {
 	ki := rng.Intn(len(c06Keys))
 	k := c06Keys[ki]
@@ -247,7 +249,13 @@ func c30Op(rng *rand.Rand, persistent bool) string {
 	case r < 55:
 		return "shiftexp 0"
 	case r < 63:
-		return "patchexp 0 " + c30Meta(rng, 7+rng.Intn(3))
+		// one record at a time with a fresh expiry (the same expiry on several records would make the
+		// unstable index sort ambiguous), or all of them with a clear
+		if rng.Intn(4) == 0 {
+			return "patchexp 0 " + c06Pick(rng, []string{"0", "1"}) + "|" + c06Pick(rng, c06Users) + "|0|||1"
+		}
+		c30Uniq++
+		return "patchexp 1 " + c30Meta(rng, 10+c30Uniq)
 	case r < 72:
 		return "getidx " + c06Pick(rng, []string{"asc", "asc", "desc"}) + " " + c06Pick(rng, []string{"0", "0", "1"}) + " " + c06Pick(rng, []string{"0", "0", "2"})
 	case r < 80:
@@ -293,6 +301,7 @@ func c30Gen(rng *rand.Rand, tier string, w *bufio.Writer) {
 		cases, length = 500, 80
 	}
 	n := 0
+	c30Uniq = 0
 	emit := func(kind string, ops []string) {
 		fmt.Fprintf(w, "case %d kind=%s\n", n, kind)
 		n++
